@@ -20,7 +20,8 @@ func c17QueryN(tag string, c *fileConn, which int) { c17QueryRows(tag, c, which,
 
 // c17QueryRows: different goroutines send different query texts; rows = the file's data
 func c17QueryRows(tag string, c *fileConn, which int, rows []drvRow) {
-	q := drvQuery{text: `a = "x"`, match: isA("x")}
+	// the plain query also asks for a value that does not occur in its column
+	q := drvQuery{text: `a = "zz" | a = "x"`, match: isA("x")}
 	if which%2 == 1 {
 		q = drvQuery{text: `a = "y" ; a`, match: isA("y"), groupBy: []string{"a"}}
 	}
@@ -45,7 +46,7 @@ func HarnessC17Seq() {
 	// times, and never blocks this or another data source
 	p3 := verifTempPath("c17_notanindex.updog")
 	verifMakeFile(p3, 1) // an empty file: bbolt initialises it as a database without the index bucket
-	dsns := []string{"file:" + p1 + "?lrucache=true&lrucachesize=100000", "file:" + p2 + "?lrucache=true&lrucachesize=100000", "file:" + p1 + "?preload=true", "file:" + p3}
+	dsns := []string{"file:" + p1 + "?lrucache=true&lrucachesize=4611686018427387904", "file:" + p2 + "?lrucache=true&lrucachesize=4611686018427387904", "file:" + p1 + "?preload=true", "file:" + p3}
 	d := newUpdogDriver()
 	var open []*fileConn
 	var openDSN []int
@@ -86,7 +87,7 @@ func HarnessC17Seq() {
 			if openDSN[h] == 1 {
 				c17QueryRows("C17", open[h], 0, c17RowsB)
 			} else {
-				c17Query("C17", open[h])
+				c17QueryRows("C17", open[h], 0, c17Rows)
 			}
 		case 2:
 			h := verifChoice("handle", len(open))
